@@ -215,6 +215,7 @@ Definition has_marker (c : @compiled Z) : bool :=
 (* one correspondence case: machine | reference | dump *)
 Definition show_case (fuel mfuel : nat) (p : program Z) : string :=
   let c := compile (procs zops) p in
-  (if has_marker c then "R:P" else show_outcome (Machine.run zops c mfuel))
+  (if code_too_large c then "R:E:CodeTooLarge"
+   else if has_marker c then "R:P" else show_outcome (Machine.run zops c mfuel))
   ++ " || " ++ show_outcome (run_ref zops fuel p)
-  ++ " || " ++ show_compiled c.
+  ++ " || " ++ (if code_too_large c then "" else show_compiled c).
